@@ -11,7 +11,7 @@ type outcomeProp struct {
 	skips   int
 	fails   int
 	after   int // invocations after the first failing one
-	firstW  []uint64
+	firstOutcome int
 }
 
 func (o *outcomeProp) prop(t *T) {
@@ -19,7 +19,17 @@ func (o *outcomeProp) prop(t *T) {
 	if o.fails > 0 {
 		o.after++
 	}
+	out := 2
 	switch nondetU8("o" + itoa(o.calls)) {
+	case 0:
+		out = 0
+	case 1:
+		out = 1
+	}
+	if o.calls == 1 {
+		o.firstOutcome = out
+	}
+	switch out {
 	case 0:
 		o.passes++
 	case 1:
